@@ -29,7 +29,7 @@ CLAIMS = {
    "DESIGN.md section 4 C16, E3"),
  "C19": ("other",
    "structural rules (ordering, who-may-write, call context, recognised arithmetic idiom) on bash's own parse (`declare -f` dump) of bin/newpolicy.sh and the sibling shell scripts; nothing is executed",
-   "Necessary structure of the property decided on every run: the lock descriptor is opened and flock'ed (exclusive, non-blocking) before anything else, `main` is the only top-level command and the lock descriptor is never unlocked, closed or re-opened afterwards; the POLICY number is committed and pushed before the directory is renamed; `current` is written only in handle_success, which is called only on the success branch of the compiler invocation; the rename of `next` precedes the link switch and the link targets $POLICY (rm + ln -s, or the atomic ln -sfn tmp + mv -T); the next number is max(POLICY file, link)+1. It does not decide the semantic outcome at each kill point, flock semantics or the arithmetic on strings read at run time.",
+   "Necessary structure of the property decided on every run: the lock descriptor is opened and flock'ed (exclusive, non-blocking) before anything else, `main` is the only top-level command that can touch the database (traps and pure builtins aside), a trap for a real signal ignores it or ends the run, and the lock descriptor is never unlocked, closed or re-opened afterwards; the POLICY number is committed and pushed before the directory is renamed; `current` is written only in handle_success, which is called only on the success branch of the compiler invocation; the rename of `next` precedes the link switch and the link targets $POLICY (rm + ln -s, or the atomic ln -sfn tmp + mv -T); the next number is max(POLICY file, link)+1. It does not decide the semantic outcome at each kill point, flock semantics or the arithmetic on strings read at run time.",
    "Trusted: bash's parser/pretty-printer; documented semantics of rm/ln/mv/flock. Non-shell scripts under bin/ are listed as not analysed.",
    "DESIGN.md section 4 C19, E8"),
  "C13": ("other",
@@ -39,7 +39,7 @@ CLAIMS = {
    "DESIGN.md section 4 C13"),
  "C09": ("other",
    "dominance / def-use (taint) / immediate-control-dependence analysis on go/ssa in the session code; failure-edge exploration; call-chain checks on the VTA call graph; table-driven error discipline",
-   "Decides the structural core for every device type on every run: each raw send of a change command is followed by validation of the device's answer (both halves of a joined line; exit status on Linux); every error returned inside the apply region and the console layer ends the phase on its failure edge (no break/continue that goes on sending, no dropped error outside the audited table); save/commit is a plain call at every level, nothing sends after it, no recover() can swallow an abort, and the device's reply to the save is positively confirmed; the abort machinery, exit status, status file and history derive from the session result; all waits are finite. Not decided: position-k fault behaviour as executed, device timing.",
+   "Decides the structural core for every device type on every run: each raw send of a change command is followed by validation of the device's answer (both halves of a joined line; exit status on Linux); every error returned inside the apply region and the console layer ends the phase on its failure edge (no break/continue that goes on sending, no dropped error outside the audited table; a helper used in a deferred closure hands the pending error back on every path); save/commit is a plain call at every level, nothing sends after it, no recover() can swallow an abort, and the device's reply to the save is positively confirmed; the abort machinery, exit status, status file and history derive from the session result; all waits are finite. Not decided: position-k fault behaviour as executed, device timing.",
    "Trusted: go/ssa, call graph, goexpect reports time-out/EOF as error, panic unwinding semantics, the exempt rows of tables/err_exempt.tsv (each with a written reason).",
    "DESIGN.md section 4 C09, E6"),
  "C15": ("other",
@@ -84,12 +84,12 @@ CLAIMS = {
    "DESIGN.md section 4 C18"),
  "C17": ("other",
    "inter-procedural, label-aware taint analysis on go/ssa with label-polymorphic summaries (parameter->result/sink/field), field-based heap, flow-sensitive mutable containers, URL->error model for net/http, masking regexps as sanitisers",
-   "Decides on every run that no password, API key or session token flows from its sources to any log/history/status/stdout/stderr sink on any path through the module, including failure paths where a transport error embeds the request URL; sanitisers are recognised by their pattern and replacement. 'other' rather than 'proof' because one genuine leak (API key in the error of httpPrefixGetLog) is pinned by the unedited test-suite and recorded as a known finding; any other (label, origin, sink) triple is reported.",
+   "Decides on every run that no password, API key or session token flows from its sources to any log/history/status/stdout/stderr sink on any path through the module, including failure paths where a transport error embeds the request URL and a module RoundTripper that sees the whole request; sanitisers are recognised by their pattern and replacement. 'other' rather than 'proof' because one genuine leak (API key in the error of httpPrefixGetLog) is pinned by the unedited test-suite and recorded as a known finding; any other (label, origin, sink) triple is reported.",
    "Trusted: go/ssa, call graph; library functions propagate taint from arguments to results and do not log by themselves; *url.Error contains URL and method only. Not decided: a device echoing a secret back.",
    "DESIGN.md section 4 C17, E4"),
  "C20": ("other",
    "enumeration of crash obligations: explicit panics (go/ssa), the bounds checks the Go compiler's prove pass cannot eliminate (-d=ssa/check_bce with a build overlay, both toolchains in the thorough tier) mapped to AST expressions and compared as a multiset with an audit table, nil-guard dominance rule for nillable sources, type-assertion audit, acyclicity of the reference graph read from the cmdInfo literals",
-   "Does NOT prove crash-freedom. It decides, on every run, that every potential crash site in the code that handles input files is either proved safe by the compiler, covered by a written invariant in an audit table (with machine checks for the NSX singleton invariant — that the validity check runs on every parse and that it rejects an empty list for each of the four fields —, the compile-time tables, guards on captured slices), or an explicitly listed known finding (31 today, each reproduced with drc; two more were repaired by fix: commits) — so that a new unproven index expression, a removed guard, a new panic, a new unguarded nillable dereference or a reference cycle cannot appear unnoticed.",
+   "Does NOT prove crash-freedom. It decides, on every run, that every potential crash site in the code that handles input files is either proved safe by the compiler, covered by a written invariant in an audit table (with machine checks for the NSX singleton invariant — that the validity check runs on every parse and that it rejects an empty list for each of the four fields —, the compile-time tables, guards on captured slices), or an explicitly listed known finding (31 today, each reproduced with drc; three more were repaired by fix: commits; pointers decoded by address count as nillable) — so that a new unproven index expression, a removed guard, a new panic, a new unguarded nillable dereference or a reference cycle cannot appear unnoticed.",
    "Trusted: soundness of the Go compiler's bounds-check elimination; go/ssa; the invariants I1..I6 written in tables/bounds_audit.tsv. Hangs are covered only for the recursive walkers (R20.5).",
    "DESIGN.md section 4 C20, E5"),
 }
